@@ -123,7 +123,7 @@ package fox
 //@ extern Redirect in net/http
 //@   modifies heap, wBody[w], wFinal[w], wFirst[w], wInfo[w]
 
-//@ func (*cTx).String props C14 partial
+//@ func (*cTx).String props C14
 //@   requires c != nil && c.w != nil
 //@   modifies heap, wFinal[c.w], wFirst[c.w], wInfo[c.w], wBody[c.w]
 //@   assert-at call (Header).Set#1 : default-type: same(arg_key, "Content-Type") && same(arg_value, "text/plain; charset=UTF-8") && len(hdrGet(wHeader(c.w, hCalls), "Content-Type")) == 0
@@ -131,7 +131,7 @@ package fox
 //@   assert-at call Fprintf#1 : body: arg_w == c.w && same(arg_format, format) && arg_a == values && wBody[c.w] == old(wBody[c.w]) && (!informational(code) ==> wFinal[c.w] == old(wFinal[c.w]) + 1)
 //@   ensures one-status: !informational(code) ==> wFinal[c.w] >= old(wFinal[c.w]) + 1
 
-//@ func (*cTx).Blob props C14 partial
+//@ func (*cTx).Blob props C14
 //@   requires c != nil && c.w != nil
 //@   modifies heap, wFinal[c.w], wFirst[c.w], wInfo[c.w], wBody[c.w]
 //@   assert-at call (Header).Set#1 : type: same(arg_key, "Content-Type") && same(arg_value, contentType)
@@ -139,7 +139,7 @@ package fox
 //@   assert-at call ResponseWriter.Write#1 : body: arg_self == c.w && arg_arg0 == buf && wBody[c.w] == old(wBody[c.w])
 //@   ensures bytes: wBody[c.w] <= old(wBody[c.w]) + len(buf) && (err == nil ==> wBody[c.w] == old(wBody[c.w]) + len(buf))
 
-//@ func (*cTx).Stream props C14 partial
+//@ func (*cTx).Stream props C14
 //@   requires c != nil && c.w != nil
 //@   modifies heap, wFinal[c.w], wFirst[c.w], wInfo[c.w], wBody[c.w]
 //@   assert-at call (Header).Set#1 : type: same(arg_key, "Content-Type") && same(arg_value, contentType)
